@@ -152,12 +152,37 @@ BROAD_MODES = {
 }
 
 
+def _overlaid_modes(overlays):
+    """The bank itself plus, for each requested overlay, every compatible mode combined with one cross-cutting feature:
+    'avg' (two samples per point, so that evaluation and point counters differ) and 'soft' (soft restarts)."""
+    items = list(BROAD_MODES.items())
+    for ov in overlays:
+        for name, (m, flags) in BROAD_MODES.items():
+            if "reg" in flags:
+                continue
+            m2 = dict(m)
+            if ov == "avg":
+                if "avg" in flags:
+                    continue
+                m2.update(nsamples="const2", memo=False)
+                m2.setdefault("noise_amp", 0.02)
+                items.append((name + "+avg", (m2, set(flags) | {"avg", "noisy"})))
+            elif ov == "soft":
+                up = dict(m.get("up", {}))
+                if up.get("restarts.use_restarts"):
+                    continue
+                up["restarts.use_restarts"] = True
+                m2["up"] = up
+                items.append((name + "+soft", (m2, set(flags))))
+    return items
+
+
 def broad_cfgs(probs=("rosen", "nzr"), budgets=(7, 25, 60), salt=0, exclude=(), require=(), extra_up=None, reg_budgets=(6, 12),
-               rhoend=0.01):
+               rhoend=0.01, overlays=()):
     """(name, cfg) pairs of the broad bank.  Modes carrying a flag in `exclude` are skipped; `require` keeps only modes
-    that carry all the given flags; `extra_up` is merged into every user_params dict."""
+    that carry all the given flags; `extra_up` is merged into every user_params dict; `overlays` adds pairwise variants."""
     out = []
-    for name, (m, flags) in BROAD_MODES.items():
+    for name, (m, flags) in _overlaid_modes(overlays):
         if set(exclude) & flags or not set(require) <= flags:
             continue
         plist = [m["prob"]] if "prob" in m else list(probs)
